@@ -3,7 +3,7 @@
     Model: AnalysisDefs.v (faithful transcription of the classification core of src/analyser.cpp);
     executable specification: AnalysisSpec.v (the same predicate is evaluated on the real AnalyserModel). *)
 From Coq Require Import List Bool Arith Permutation.
-From LC Require Import AnalysisDefs AnalysisSpec AnalysisProofs AnalysisWfProofs AnalysisWitness.
+From LC Require Import AnalysisDefs AnalysisSpec AnalysisProofs AnalysisWfProofs AnalysisOwnProofs AnalysisRenameProofs AnalysisWitness.
 Import ListNotations.
 
 (** ** Termination of the do/while over mInternalEquations *)
@@ -49,6 +49,26 @@ Theorem C05_result_wf_indices : forall s r, analyse s = Done r -> wf_indices r =
 Proof. exact AnalysisWfProofs.wf_indices_analyse. Qed.
 Print Assumptions C05_result_wf_indices.
 
+(** One definer, as far as it is true (the _partial of the refuted clause below): when the do/while loop stops,
+    every internal variable that was given a direct type (computed constant, algebraic, or a state that received
+    its index) is listed in mUnknownVariables of EXACTLY ONE equation, which lists nothing else and whose type
+    matches; a variable turned into an NLA unknown (INITIALISED_ALGEBRAIC) is listed only by NLA equations; every
+    other variable by none.  (Stated on the internal state after the loop; the re-packaging of that state into
+    AnalyserVariable::equations() / AnalyserEquation::variables() is compared with the library on every run but
+    is NOT PROVED.) *)
+Theorem C05_one_definer_partial : forall s ivs0 es0 st es1,
+  build s = Some (ivs0, es0) -> vs_issues (analyse_asts s ivs0 es0) = [] ->
+  loop s (loop_fuel es0) 1 false (mkCs (vs_ivs (analyse_asts s ivs0 es0)) 0 0) es0 = Some (st, es1) ->
+  forall p, p < length (cs_ivs st) ->
+    let v := geti (cs_ivs st) p in
+    ((comp_type (iv_type v) = true \/ (iv_type v = VState /\ has_index v = true)) ->
+       exists e, filter (fun x => mem_nat p (ie_unknown x)) es1 = [e] /\ ie_unknown e = [p] /\ agree (iv_type v) (ie_type e) = true) /\
+    (iv_type v = VInitAlgebraic -> forall e, In e es1 -> mem_nat p (ie_unknown e) = true -> ie_type e = ENla) /\
+    ((pre_type (iv_type v) = true \/ (iv_type v = VState /\ has_index v = false)) ->
+       forall e, In e es1 -> mem_nat p (ie_unknown e) = false).
+Proof. exact AnalysisOwnProofs.loop_definers_spelled. Qed.
+Print Assumptions C05_one_definer_partial.
+
 (** "Every state and every computed variable is computed by exactly one equation or by the equations of exactly
     one NLA system" is FALSE in the faithful model (and in the library): NLA grouping is not transitive. *)
 Theorem C05_result_wf_definers_refuted :
@@ -63,7 +83,21 @@ Theorem C05_result_wf_dependencies_refuted :
 Proof. exists deps_sys. exact AnalysisWitness.deps_witness. Qed.
 Print Assumptions C05_result_wf_dependencies_refuted.
 
+(* NOT PROVED: forall s r, analyse s = Done r -> valid_type (r_type r) = true -> wf_topological false r = true
+   ("direct equations admit a topological order").  Evaluated on the real AnalyserModel and on the model's own
+   result for every generated system on every run (no failure of clause 5 has been observed); the ordering
+   constraints THROUGH NLA systems (clause 51) do fail on the library, see design_notes/C05.md. *)
+
 (** ** Invariance *)
+
+(** Consistent renaming: class identifiers and variable names are only ever compared for equality, so renaming
+    both through injective maps gives EXACTLY the same result (results mention variables by position and equations
+    by id).  The maps keep identifier 0, which is the filler of the model's total accessors. *)
+Theorem C05_rename_invariant : forall (f g : nat -> nat),
+  (forall a b, f a = f b -> a = b) -> (forall a b, g a = g b -> a = b) -> f 0 = 0 -> g 0 = 0 ->
+  forall s, analyse (rn_sys f g s) = analyse s.
+Proof. exact AnalysisRenameProofs.analyse_rename. Qed.
+Print Assumptions C05_rename_invariant.
 
 (** The classification is NOT invariant under re-ordering of the equations (second pass is greedy)... *)
 Theorem C05_classification_perm_invariant_refuted :
@@ -72,7 +106,16 @@ Theorem C05_classification_perm_invariant_refuted :
 Proof. exists order_a, order_b. exact AnalysisWitness.order_witness. Qed.
 Print Assumptions C05_classification_perm_invariant_refuted.
 
-(** ... nor under a consistent renaming of the variables of one component (the isolation test compares names). *)
+(* NOT PROVED (the _partial of the refutation above): if the first pass alone gives a type to every equation
+   (first_pass_complete s = Some true) then every re-ordering of the equations has the same classification.
+   Evidence: exhaustive over all one-component systems with <= 4 classes and <= 3 equations / <= 3 classes and <= 4
+   equations drawn from 5 shapes (ocaml/analysis/driver.ml: search; 0 counter-examples among 8202 + 1630 order-dependent
+   systems), and every generated group of every run (checks/c05.py).
+   NOT PROVED: pass1_confluent (the set of variables typed by the first pass does not depend on the order in which
+   mInternalEquations is swept). *)
+
+(** ... nor under a renaming of the variables of ONE component, although that is a consistent renaming of the
+    document (the isolation test variableOnLhsRhs compares names across components). *)
 Theorem C05_classification_rename_invariant_refuted :
   exists s s', forallb names_distinct s = true /\ forallb names_distinct s' = true /\
     map (fun c => map v_cls (c_vars c)) s = map (fun c => map v_cls (c_vars c)) s' /\
